@@ -37,7 +37,10 @@ def forall(n, body, lo=None, hi=None, name="q", pats=None):
     if isinstance(b, bool):
         b = z3.BoolVal(b)
     if pats:
-        return ForAll(vs, b, patterns=pats(*vs))
+        try:
+            return ForAll(vs, b, patterns=pats(*vs))
+        except z3.Z3Exception:
+            pass  # the pattern term is not a legal trigger in this state (e.g. an if-then-else): let z3 choose
     return ForAll(vs, b)
 
 
